@@ -216,14 +216,19 @@ def edge_variant_db(r):
         seq = doc["reference"]["seq"]
         regs = doc["structure"]["regions"]["hg19"]
         S = doc["reference"]["mappings"]["hg19"][1]
-        used = {e[0] for a in doc["alleles"].values() for e in a["mutations"] if isinstance(e[0], int)}
+        def span_(e):
+            op_ = e[1]
+            w_ = len(op_.split(">")[0]) if ">" in op_ else (len(op_[3:].split("ins")[0]) if op_.startswith("del") else 1)
+            return range(e[0] - 1, e[0] + w_ + 1)
+        used = {q for a in doc["alleles"].values() for e in a["mutations"] if isinstance(e[0], int) for q in span_(e)}
         names = [n for n in regs if n not in ("up", "down")]
         k = 0
         for n in r.sample(names, min(len(names), 2)):
             a, b = regs[n][0], regs[n][1]          # gene copy: 1-based genome start, end (half-open) on the + strand build
             p = (a if r.random() < 0.6 else b - 1) - S + 1   # 1-based RefSeq position
-            if p in used or p - 1 in used or p + 1 in used or not (1 <= p <= len(seq)):
+            if p in used or not (1 <= p <= len(seq)):
                 continue
+            used.update((p - 1, p, p + 1))
             alt = r.choice([c for c in "ACGT" if c != seq[p - 1]])
             k += 1
             doc["alleles"][f"{doc['name']}*{90 + k}.001"] = {"mutations": [[p, f"{seq[p - 1]}>{alt}", "-", "functional"]]}
